@@ -91,7 +91,7 @@ def one_case(args):
 def run_layout(prop, tier, replay):
     if replay:
         return replay_case(prop, replay)
-    rep = common.Report(prop, tier, level='proof')
+    rep = common.Report(prop, tier, level=obligations.LEVEL.get(prop, 'exploration'))
     ob = common.check_obligations(prop, obligations.THEOREMS.get(prop, []))
     n = 1500 if tier == 'quick' else 30000
     args = [(common.seed(), i, tier) for i in range(n)]
